@@ -590,7 +590,14 @@ def c02_9(ctx):
     return out
 
 
+def c02_10(ctx):
+    """no verification / signing result is remembered under a key that leaves out the message, the key or the signature"""
+    from sa.memo import memo_obligation
+    return memo_obligation(ctx, ["pecc"], "a signature accepted once would be accepted for another message / key")
+
+
 OBLIGATIONS = [
+    ("C02.10", "MEMO", c02_10),
     ("C02.1", "TABLE+SIBLING", c02_1),
     ("C02.2", "MEMO key", c02_2),
     ("C02.3", "RANGE accept-set", c02_3),
